@@ -19,16 +19,34 @@ CFG = {
                   "Trusted: Lean kernel; Spec/ContextSpec.lean (my reading of the property); harness (tbp.rs dump, c06.rs generator, its "
                   "TOML emitter and canonical form); core Lean's ByteArray.validateUTF8 as the spec's notion of 'representable'.",
     "shrink": [(3, ",")],
-    "rule": "quick 2 000 / thorough 40 000 seeded cases (+9 fixed head cases covering every target class), each one process run of the "
-            "test buildpack as detect or build: platform dir = missing / without env / env is a file / listing of 0..7 entries with names "
-            "from 19 shapes (dots, spaces, UTF-8, non-UTF-8 bytes, newline, '=') and kinds file, directory, link to file, link to directory, "
-            "dangling link; contents from 14 valid (empty, newlines, NUL, boundary code points, 20 kB) and 12 invalid UTF-8 shapes (1 listing "
-            "in 8 holds invalid files); CNB_TARGET_* = all valid (variant unset in half) / one mandatory missing / one mandatory not UTF-8 / "
-            "variant not UTF-8 (D7, tagged target=d7, about 1 in 20) / random mix; buildpack plan with 0..3 entries, store present in 2/3, "
-            "descriptor with optional fields, licenses, stacks, targets, sbom-formats and metadata: nested tables/arrays (depth <= 4) over "
-            "strings (18 shapes), integers incl. i64 bounds, booleans, floats and datetimes (compared as text), written in inline / header / "
-            "multi-line spellings. non-trivial = the platform dir lists at least one entry or some supplied value is unrepresentable; "
-            "distinct = distinct input line",
+    "rule": "one process run of the test buildpack (detect or build) per case. Seeded stream: quick 3 000 / thorough 40 000 cases (+9 fixed head cases covering "
+            "every target class): platform dir = missing / without env / env is a file / env is a dangling link / env is a link to a file / listing of 0..7 entries, "
+            "names from 80 shapes (dots, leading / trailing dots and blanks, k8s ..data names, spaces, %, +, =, quotes, shell syntax, LF / CR / CRLF / BOM in the name, control "
+            "characters, case variants, fullwidth and composed / decomposed look-alikes, names of the CNB_* inputs, UTF-8, non-UTF-8 bytes), kinds file, directory, empty "
+            "directory, link to file (absolute, relative, link to link), link to a sibling entry, hard link (to a file outside, to a sibling), link to directory (also link "
+            "to link), dangling link, link to itself; the env directory and / or the platform directory behind a symbolic link in 1 listing of 8; contents from 65 valid "
+            "(empty, LF / CR / CRLF in every position, BOM first / alone / twice / inside / last, NUL, control characters, padding, boundary code points, shell / TOML / JSON / "
+            "PEM text, 20 kB) and 24 invalid UTF-8 shapes (truncated BOM, UTF-16 with BOM, Latin-1, invalid after NUL / LF / CRLF; 1 listing in 8 holds invalid files); "
+            "CNB_TARGET_* = all valid (pools of 24 / 20 / 16 / 18 / 19 values per variable: well-known OS / arch / variant / distro names, case variants, padded, "
+            "LF / CRLF / BOM, empty, non-ASCII, look-alikes; variant unset in half) / one mandatory missing / one mandatory not UTF-8 / variant not UTF-8 (D7, tagged target=d7, about "
+            "1 in 20) / random mix; buildpack plan with 0..3 entries, store present in 2/3, descriptor with optional fields, licenses, stacks, targets, sbom-formats and "
+            "metadata: nested tables/arrays (depth <= 4) over strings (18 shapes), integers incl. i64 bounds, booleans, floats and datetimes (compared as text), written in "
+            "inline / header / multi-line spellings. Directed families (quick ~1 800 cases): many = listings of 16,17,20,21,32,33,64,65,128,129,256,257 (thorough also 512,513,1000,"
+            "1024,1025) entries created in shuffled order, all files / mixed kinds / one invalid file first, in the middle, last; bigcontent = contents of 4095..4097, 8191..8193, "
+            "16384, 32768, 65535..65537, 131072 (thorough 262143..262145) bytes: ASCII, 3-byte characters shifted by 0/1/2 bytes, BOM first, LF / CRLF last, an invalid byte first / at 4096 / "
+            "last, through file / link / relative link / hard link / link chain; longname = names of 1, 2, 100, 200, 254, 255 bytes (ASCII, 3-byte characters, non-UTF-8); names / "
+            "contents = every pool element once as a file and once behind a link; correlated = 12 listings (case variants, prefix chains, NFC/NFD pair, names differing only "
+            "in invalid bytes, same content everywhere, contents naming other entries, links named like their targets, several links and hard links to one sibling, k8s layout, "
+            "every kind at once, no file at all) x env / platform directory plain or behind links; envdir = the 6 states of the env directory x 4 link placements; targetpool = every "
+            "pool value of every variable with the others usual, all five equal, values of 255..257, 4095..4097, 65536 bytes, 300 (thorough 4 000) cross draws; decoy = 200 (2 000) "
+            "cases with 1..6 other variables in the process environment (names one edit / case / prefix away from the inputs, CNB_STACK_ID, GOOS, PATH, ...; field 10); bigdoc = plan "
+            "with n entries, store and descriptor metadata n keys wide, descriptor with n keywords / licenses / stacks / targets / distros / sbom-formats, n = 16,17,32,33,64,65,128,129,"
+            "256,257 (thorough 1024,1025), and metadata 8 / 16 / 32 / 48 levels deep; layout = 451 (thorough 6 051) cases whose plan, store and descriptor are written by "
+            "harness/src/tomllayout.rs: 17 directed styles x 3 and seeded random styles over header / inline / dotted-key tables, [[x]] / inline arrays of tables, implicit "
+            "super-tables, shuffled and quoted keys, literal / multi-line / escaped strings, +/hex/octal/binary/underscored numbers, CRLF, BOM, comments, blank lines, indentation, "
+            "odd spacing, no final newline, `entries = []` beside no key. Not covered (outside the quantifier): FIFOs / sockets / devices in env, unreadable files (the harness "
+            "runs as root), NUL in variable values (the OS refuses), contents above 256 KiB (the driver's list-based hex decoding). non-trivial = the platform dir lists at least one "
+            "entry, or some supplied value is unrepresentable, or the case belongs to a directed family; distinct = distinct input line",
     "trusted_base": ["Spec/ContextSpec.lean is my reading of the property text",
                      "harness/src/bin/tbp.rs (context dump) and c06.rs (generator, TOML emitter, canonical form of TOML trees)",
                      "the model's utf8Valid and core Lean's ByteArray.validateUTF8 are cross-checked against Rust's str::from_utf8 on every case"],
